@@ -1864,6 +1864,41 @@ theorem example_loss_gradient : ∃ ℓ : ℝ → ℝ,
     (fun _ _ => trivial) example_loss_dual
   exact ⟨ℓ, h1, h2.symm, h3⟩
 
+/-! ### ensembles: `compute_loss(n_times = k)` / `price(n_times = k, enable_grad = True)` -/
+
+/-- **The gradient of an ensemble loss is the mean of its members' gradients.**  `ensemble_mean`
+(Model/Risk.lean `ensembleMean`: the single evaluation for `n_times = 1`, otherwise the mean of the
+stack) evaluated at dual numbers on member losses that each track their own function of the
+parameter tracks the mean of those functions: value = mean of the values, ε-part = derivative of
+the mean = mean of the members' derivatives — each member weighted by `1/n_times`, whatever the
+order in which they were simulated. -/
+theorem ensembleMean_tracks {θ : ℝ} {Ls : List (Dual ℝ)} {ℓs : List (ℝ → ℝ)} (h : TracksL Ls ℓs θ)
+    {D : Dual ℝ} (hD : ensembleMean Ls = .ok D) :
+    Tracks D (fun t => sumL (evalL ℓs t) / (ℓs.length : ℝ)) θ ∧
+    D.eps = sumL (Ls.map Dual.eps) / (Ls.length : ℝ) := by
+  have hsum : ∀ Ds : List (Dual ℝ), (sumL Ds).eps = sumL (Ds.map Dual.eps) := by
+    intro Ds; induction Ds with
+    | nil => rfl
+    | cons d ds ih => simp [sumL, ih]
+  rcases Ls with _ | ⟨L1, _ | ⟨L2, Ls'⟩⟩
+  · simp [ensembleMean] at hD
+  · cases h with
+    | cons hL hrest =>
+      cases hrest
+      simp only [ensembleMean, Except.ok.injEq] at hD
+      subst hD
+      refine ⟨hL.congr (fun t => ?_), by simp [sumL]⟩
+      simp [evalL, sumL]
+  · have hlen := h.length_eq
+    simp only [ensembleMean, Except.ok.injEq] at hD
+    subst hD
+    have hs := (TracksL.sumL h).div_natCast (L1 :: L2 :: Ls').length
+    refine ⟨by rw [← hlen]; exact hs, ?_⟩
+    have hne : (((Ls'.length : ℝ) + 1 + 1)) ≠ 0 := by positivity
+    simp [Dual.div_eps, hsum]
+    field_simp
+
+
 /-- the non-recurrent branch (`FeatureList.get(None)`, last row overwritten): feature `spot`,
 module `S ↦ w S` at `w = 1`: positions `(w, 2w, 2w)`, `pl = w + 4w − 2|w| − |w| = 2w`,
 loss `−mean = −2w` -/
